@@ -4,6 +4,8 @@ import PsModel.Spec.C15
 namespace PsModel.C15
 open Spec
 
+variable (fl : Flags)
+
 /-! ## items -/
 
 def actExit : Act → Option Exit
@@ -72,6 +74,15 @@ def NotRel : TimeSpec → Prop
   | .rel _ => False
   | _ => True
 
+/-- a now-relative time trigger has a positive offset (`once(now + 0s)` coincides with the call itself) -/
+def PosRel : TimeSpec → Prop
+  | .rel d => 0 < d
+  | _ => True
+
+/-- the legacy time trigger is anchored at the call: always with the repaired loop, and with the pre-fix loop only
+when the trigger is not now-relative -/
+def Anchored (fl : Flags) (ts : TimeSpec) : Prop := fl.reanchor = true → NotRel ts
+
 theorem timeNext_stable (ts : TimeSpec) (hn : NotRel ts) (call anchor : Nat) (hle : call ≤ anchor)
     (h : ∀ T, timeNext ts call = some T → anchor < T) : timeNext ts anchor = timeNext ts call := by
   cases ts with
@@ -85,16 +96,37 @@ theorem timeNext_stable (ts : TimeSpec) (hn : NotRel ts) (call anchor : Nat) (hl
     · have : ¬ anchor < T := by omega
       simp [hc, this]
 
+theorem tnext_call (ts : TimeSpec) (call : Nat) : Legacy.tnext fl ts call call = timeNext ts call := by
+  unfold Legacy.tnext
+  by_cases h : fl.reanchor = true
+  · simp [h]
+  · simp only [h, Bool.false_eq_true, if_false]
+    cases ts <;> simp [timeNext]
+
+theorem tnext_stable (ts : TimeSpec) (hn : Anchored fl ts) (call anchor : Nat) (hle : call ≤ anchor)
+    (h : ∀ T, timeNext ts call = some T → anchor < T) : Legacy.tnext fl ts call anchor = timeNext ts call := by
+  unfold Legacy.tnext
+  by_cases hr : fl.reanchor = true
+  · simp only [hr, if_true]
+    exact timeNext_stable ts (hn hr) call anchor hle h
+  · simp only [hr, Bool.false_eq_true, if_false]
+    cases ts with
+    | none => rfl
+    | abs T => exact timeNext_stable (.abs T) trivial call anchor hle h
+    | rel d =>
+      have := h (call + d) (by simp [timeNext])
+      simp [timeNext, this]
+
 /-- loop invariant of the legacy wait loop: the current `now` is not before the call, strictly before the
 (call-anchored) deadline, and if there is no deadline somebody can still wake the loop -/
 def Inv (cfg : Cfg) (call anchor : Nat) : Prop :=
   call ≤ anchor ∧ (∀ d k, deadlineAt cfg call = some (d, k) → anchor < d) ∧
   (deadlineAt cfg call = Option.none → hasListen cfg = true)
 
-theorem dl_eq (cfg : Cfg) (hn : NotRel cfg.time) (call anchor : Nat) (h : Inv cfg call anchor) :
-    Legacy.dl cfg call anchor = deadlineAt cfg call := by
+theorem dl_eq (cfg : Cfg) (hn : Anchored fl cfg.time) (call anchor : Nat) (h : Inv cfg call anchor) :
+    Legacy.dl fl cfg call anchor = deadlineAt cfg call := by
   unfold Legacy.dl deadlineAt
-  rw [timeNext_stable cfg.time hn call anchor h.1]
+  rw [tnext_stable fl cfg.time hn call anchor h.1]
   intro T hT
   cases hd : deadlineAt cfg call with
   | none =>
@@ -110,14 +142,14 @@ theorem dl_eq (cfg : Cfg) (hn : NotRel cfg.time) (call anchor : Nat) (h : Inv cf
     have := deadline_le_time _ _ _ _ hd
     omega
 
-theorem pre_none (cfg : Cfg) (hn : NotRel cfg.time) (call anchor : Nat) (h : Inv cfg call anchor) :
-    Legacy.pre cfg call anchor = Option.none := by
-  have hdl := dl_eq cfg hn call anchor h
+theorem pre_none (cfg : Cfg) (hn : Anchored fl cfg.time) (call anchor : Nat) (h : Inv cfg call anchor) :
+    Legacy.pre fl cfg call anchor = Option.none := by
+  have hdl := dl_eq fl cfg hn call anchor h
   unfold Legacy.pre
   cases ht : cfg.timeout with
   | none =>
     simp only [Bool.false_eq_true, if_false, Option.isNone_none, Bool.and_true]
-    by_cases hc : (timeNext cfg.time anchor).isNone = true
+    by_cases hc : (Legacy.tnext fl cfg.time call anchor).isNone = true
     · have : deadlineAt cfg call = Option.none := by
         rw [← hdl]
         unfold Legacy.dl
@@ -160,12 +192,12 @@ theorem firstDecisive_ge (cfg : Cfg) (hist : Hist) (lo : Nat) (hm : Mono lo hist
       omega
 
 /-- the waiting part of the specification without the "nothing can ever happen" clause -/
-theorem loop_eq_wait (cfg : Cfg) (hn : NotRel cfg.time) (call : Nat) (hist : Hist) (anchor lo : Nat)
+theorem loop_eq_wait (cfg : Cfg) (hn : Anchored fl cfg.time) (call : Nat) (hist : Hist) (anchor lo : Nat)
     (hlo : call ≤ lo) (hm : Mono lo hist) (hnt : NoTies cfg call hist) (hi : Inv cfg call anchor) :
-    Legacy.loop cfg call hist anchor = wait cfg call hist := by
+    Legacy.loop fl cfg call hist anchor = wait cfg call hist := by
   induction hist generalizing anchor lo with
   | nil =>
-    simp only [Legacy.loop, pre_none cfg hn call anchor hi, dl_eq cfg hn call anchor hi, wait, firstDecisive]
+    simp only [Legacy.loop, pre_none fl cfg hn call anchor hi, dl_eq fl cfg hn call anchor hi, wait, firstDecisive]
     cases deadlineAt cfg call with
     | none => rfl
     | some p => rfl
@@ -174,10 +206,10 @@ theorem loop_eq_wait (cfg : Cfg) (hn : NotRel cfg.time) (call : Nat) (hist : His
     simp only [Mono] at hm
     have hnt' : NoTies cfg call rest := fun q hq => hnt q (List.mem_cons_of_mem _ hq)
     have hact := actExit_react cfg t it
-    simp only [Legacy.loop, pre_none cfg hn call anchor hi, dl_eq cfg hn call anchor hi]
+    simp only [Legacy.loop, pre_none fl cfg hn call anchor hi, dl_eq fl cfg hn call anchor hi]
     -- what happens when the item is actually looked at (it is before the deadline)
     have key : ∀ (_ : ∀ d k, deadlineAt cfg call = some (d, k) → t < d),
-        onItem cfg t it (Legacy.loop cfg call rest t) (Legacy.loop cfg call rest anchor) =
+        onItem cfg t it (Legacy.loop fl cfg call rest t) (Legacy.loop fl cfg call rest anchor) =
         (match outcome cfg t it with
           | some e => e
           | Option.none => wait cfg call rest) := by
@@ -238,10 +270,10 @@ theorem loop_eq_wait (cfg : Cfg) (hn : NotRel cfg.time) (call : Nat) (hist : His
 
 /-! ## the legacy call as a whole -/
 
-theorem timeNext_gt (ts : TimeSpec) (hn : NotRel ts) (a T : Nat) (h : timeNext ts a = some T) : a < T := by
+theorem timeNext_gt (ts : TimeSpec) (hn : PosRel ts) (a T : Nat) (h : timeNext ts a = some T) : a < T := by
   cases ts with
   | none => simp [timeNext] at h
-  | rel d => exact absurd hn (by simp [NotRel])
+  | rel d => simp only [PosRel] at hn; simp only [timeNext, Option.some.injEq] at h; omega
   | abs T' =>
     simp only [timeNext] at h
     split at h
@@ -283,23 +315,23 @@ theorem sleep_eq (cfg : Cfg) (hs : cfg.state = Option.none) (he : cfg.event = Op
       | event d => simp only [firstDecisive, outcome, he]; exact ih t hm.2
 
 /-- the top of the loop, at the instant of the call -/
-theorem top_loop (cfg : Cfg) (hn : NotRel cfg.time) (call : Nat) (hist : Hist) (hm : Mono call hist)
+theorem top_loop (cfg : Cfg) (hn : Anchored fl cfg.time) (hp : PosRel cfg.time) (call : Nat) (hist : Hist) (hm : Mono call hist)
     (hnt : NoTies cfg call hist) :
-    Legacy.loop cfg call hist call =
+    Legacy.loop fl cfg call hist call =
       if (deadlineAt cfg call).isNone && !hasListen cfg then .ret call .none else wait cfg call hist := by
   -- the three ways an iteration at `call` can go
   by_cases h0 : cfg.timeout = some 0
   · -- timeout 0: over at once
-    have hpre : Legacy.pre cfg call call = some (.ret call .timeout) := by simp [Legacy.pre, h0]
+    have hpre : Legacy.pre fl cfg call call = some (.ret call .timeout) := by simp [Legacy.pre, h0]
     have hD : deadlineAt cfg call = some (call, .timeout) := by
       unfold deadlineAt
       rw [h0]
       cases htn : timeNext cfg.time call with
       | none => simp [deadline]
       | some T =>
-        have := timeNext_gt _ hn _ _ htn
+        have := timeNext_gt _ hp _ _ htn
         simp [deadline, this]
-    have hl : Legacy.loop cfg call hist call = .ret call .timeout := by
+    have hl : Legacy.loop fl cfg call hist call = .ret call .timeout := by
       cases hist with
       | nil => simp [Legacy.loop, hpre]
       | cons p rest => obtain ⟨t, it⟩ := p; simp [Legacy.loop, hpre]
@@ -320,8 +352,8 @@ theorem top_loop (cfg : Cfg) (hn : NotRel cfg.time) (call : Nat) (hist : Hist) (
         cases ht : cfg.timeout with
         | none => rfl
         | some T => rw [ht] at hd; simp at hd
-      have hpre : Legacy.pre cfg call call = some (.ret call .none) := by
-        simp [Legacy.pre, hto, hd.1, h1.2]
+      have hpre : Legacy.pre fl cfg call call = some (.ret call .none) := by
+        simp [Legacy.pre, hto, tnext_call, hd.1, h1.2]
       cases hist with
       | nil => simp [Legacy.loop, hpre]
       | cons p rest => obtain ⟨t, it⟩ := p; simp [Legacy.loop, hpre]
@@ -341,7 +373,7 @@ theorem top_loop (cfg : Cfg) (hn : NotRel cfg.time) (call : Nat) (hist : Hist) (
               have : T ≠ 0 := by intro e; subst e; exact h0 ht
               omega
           | some T' =>
-            have hgt := timeNext_gt _ hn _ _ htn
+            have hgt := timeNext_gt _ hp _ _ htn
             rw [htn] at hd
             cases ht : cfg.timeout with
             | none => rw [ht] at hd; simp [deadline] at hd; omega
@@ -353,14 +385,14 @@ theorem top_loop (cfg : Cfg) (hn : NotRel cfg.time) (call : Nat) (hist : Hist) (
         · intro hd
           simp only [hd, Option.isNone_none, Bool.true_and, Bool.not_eq_true', Bool.not_eq_false] at h1
           simpa using h1
-      simpa using loop_eq_wait cfg hn call hist call call (Nat.le_refl _) hm hnt hi
+      simpa using loop_eq_wait fl cfg hn call hist call call (Nat.le_refl _) hm hnt hi
 
 /-- all expressions given to the call parse -/
 def WellFormed (cfg : Cfg) : Prop := New.parseAll cfg = true
 
-theorem legacy_first (cfg : Cfg) (hwf : WellFormed cfg) (hn : NotRel cfg.time) (q : Nat) (tb : Tables) (v0 call : Nat)
+theorem legacy_first (cfg : Cfg) (hwf : WellFormed cfg) (hn : Anchored fl cfg.time) (hp : PosRel cfg.time) (q : Nat) (tb : Tables) (v0 call : Nat)
     (hist : Hist) (hm : Mono call hist) (hnt : NoTies cfg call hist) :
-    (Legacy.run cfg q tb v0 call hist).1 = first cfg v0 call hist := by
+    (Legacy.run fl cfg q tb v0 call hist).1 = first cfg v0 call hist := by
   unfold WellFormed New.parseAll at hwf
   simp only [Bool.and_eq_true] at hwf
   unfold Legacy.run
@@ -379,7 +411,7 @@ theorem legacy_first (cfg : Cfg) (hwf : WellFormed cfg) (hn : NotRel cfg.time) (
       cases he : cfg.mqtt with
       | none => rfl
       | some e => have := hwf.2; rw [he] at this; simp [this]
-    have htop := top_loop cfg hn call hist hm hnt
+    have htop := top_loop fl cfg hn hp call hist hm hnt
     unfold Legacy.setup first checkNow Legacy.stateStage
     cases hs : cfg.state with
     | none =>
@@ -440,8 +472,8 @@ theorem onItem_same (cfg : Cfg) (t : Nat) (it : Item) (c : Exit) :
   unfold onItem
   cases hr : react cfg t it <;> rw [hr] at hact <;> simp only [actExit] at hact <;> rw [← hact]
 
-theorem new_loop_eq (cfg : Cfg) (call : Nat) (hd : New.dl cfg call = deadlineAt cfg call) (hist : Hist) (lo : Nat)
-    (hm : Mono lo hist) : New.loop cfg call hist = wait cfg call hist := by
+theorem new_loop_eq (cfg : Cfg) (call : Nat) (hd : New.dl fl cfg call = deadlineAt cfg call) (hist : Hist) (lo : Nat)
+    (hm : Mono lo hist) : New.loop fl cfg call hist = wait cfg call hist := by
   induction hist generalizing lo with
   | nil =>
     simp only [New.loop, hd, wait, firstDecisive]
@@ -479,20 +511,24 @@ theorem new_loop_eq (cfg : Cfg) (call : Nat) (hd : New.dl cfg call = deadlineAt 
         | some e => simp [hlt]
         | none => rfl
 
-theorem effTimeout_eq (cfg : Cfg) (h : cfg.timeout ≠ some 0) : New.effTimeout cfg = cfg.timeout := by
+theorem effTimeout_eq (cfg : Cfg) (h : fl.timeout0Absent = true → cfg.timeout ≠ some 0) :
+    New.effTimeout fl cfg = cfg.timeout := by
   unfold New.effTimeout
-  split
-  · rename_i h0; exact absurd h0 h
-  · rfl
+  by_cases hf : fl.timeout0Absent = true
+  · simp only [hf, if_true]
+    split
+    · rename_i h0; exact absurd h0 (h hf)
+    · rfl
+  · simp [hf]
 
 /-- the new subsystem answers as specified when the timeout is not 0 and a time trigger without future instant is
 not combined with anything else -/
-theorem new_first (cfg : Cfg) (hwf : WellFormed cfg) (htz : cfg.timeout ≠ some 0)
+theorem new_first (cfg : Cfg) (hwf : WellFormed cfg) (htz : fl.timeout0Absent = true → cfg.timeout ≠ some 0)
     (hdead : hasTime cfg = true → (timeNext cfg.time call).isSome = true ∨ (hasListen cfg = false ∧ cfg.timeout = Option.none))
     (q : Nat) (tb : Tables) (v0 : Nat) (hist : Hist) (hm : Mono call hist) :
-    (New.run cfg q tb v0 call hist).1 = first cfg v0 call hist := by
-  have heff := effTimeout_eq cfg htz
-  have hdl : New.dl cfg call = deadlineAt cfg call := by unfold New.dl deadlineAt; rw [heff]
+    (New.run fl cfg q tb v0 call hist).1 = first cfg v0 call hist := by
+  have heff := effTimeout_eq fl cfg htz
+  have hdl : New.dl fl cfg call = deadlineAt cfg call := by unfold New.dl deadlineAt; rw [heff]
   unfold New.run
   by_cases hk : New.noKwargs cfg = true
   · -- no argument at all
@@ -510,8 +546,8 @@ theorem new_first (cfg : Cfg) (hwf : WellFormed cfg) (htz : cfg.timeout ≠ some
   · simp only [hk, Bool.false_eq_true, if_false]
     have hpa : New.parseAll cfg = true := hwf
     simp only [hpa, Bool.not_true, Bool.false_eq_true, if_false]
-    have hnd : New.noDecorators cfg = false := by
-      cases hnd : New.noDecorators cfg with
+    have hnd : New.noDecorators fl cfg = false := by
+      cases hnd : New.noDecorators fl cfg with
       | false => rfl
       | true =>
         exfalso
@@ -520,7 +556,7 @@ theorem new_first (cfg : Cfg) (hwf : WellFormed cfg) (htz : cfg.timeout ≠ some
         simp [New.noKwargs, hnd.1, hnd.2]
     simp only [hnd, Bool.false_eq_true, if_false]
     -- start-up, stage by stage
-    have hto : ∀ s t, ∃ s' t', New.timeoutStart cfg s t = .ok (s', t') := by
+    have hto : ∀ s t, ∃ s' t', New.timeoutStart fl cfg s t = .ok (s', t') := by
       intro s t; unfold New.timeoutStart; split <;> exact ⟨_, _, rfl⟩
     have hev : ∀ s t, ∃ s' t', New.eventStart cfg s t = .ok (s', t') := by
       intro s t; unfold New.eventStart; split <;> exact ⟨_, _, rfl⟩
@@ -528,7 +564,7 @@ theorem new_first (cfg : Cfg) (hwf : WellFormed cfg) (htz : cfg.timeout ≠ some
       intro s t; unfold New.mqttStart; split <;> exact ⟨_, _, rfl⟩
     -- after the state stage has passed: the time stage and the wait
     have rest : ∀ (s1 : New.Started) (t1 : Tables), checkNow cfg v0 call = Option.none →
-        (New.finish cfg q call hist (New.afterState cfg q call s1 t1)).1 = first cfg v0 call hist := by
+        (New.finish fl cfg q call hist (New.afterState cfg q call s1 t1)).1 = first cfg v0 call hist := by
       intro s1 t1 hck
       unfold first
       rw [hck]
@@ -557,7 +593,7 @@ theorem new_first (cfg : Cfg) (hwf : WellFormed cfg) (htz : cfg.timeout ≠ some
               | none => have := (deadline_none _ _).1 h; simp at this
               | some _ => rfl
           simp only [this, Bool.false_and, Bool.false_eq_true, if_false]
-          exact new_loop_eq cfg call hdl hist call hm
+          exact new_loop_eq fl cfg call hdl hist call hm
       · simp only [ht, Bool.false_eq_true, if_false, New.Stage.andThen]
         obtain ⟨s3, t3, h3⟩ := hev s1 t1
         simp only [h3]
@@ -578,7 +614,7 @@ theorem new_first (cfg : Cfg) (hwf : WellFormed cfg) (htz : cfg.timeout ≠ some
             simp only [Bool.not_eq_true] at ht
             simp [New.noKwargs, hc.2, ht, hto]
         simp only [hcond, Bool.false_eq_true, if_false]
-        exact new_loop_eq cfg call hdl hist call hm
+        exact new_loop_eq fl cfg call hdl hist call hm
     unfold New.start
     obtain ⟨s0, t0, h0⟩ := hto {} tb
     simp only [h0, New.Stage.andThen]
@@ -644,8 +680,8 @@ def LeakyParse (cfg : Cfg) : Prop :=
   cfg.event.isSome = true ∧ ∃ m, cfg.mqtt = some m ∧ m.parseOK = false
 
 theorem legacy_cleanup (cfg : Cfg) (q : Nat) (tb : Tables) (v0 call : Nat) (hist : Hist) (hf : Fresh q tb)
-    (hleak : ¬ LeakyParse cfg) (hexit : (Legacy.run cfg q tb v0 call hist).1.leavesRunning = false) :
-    (Legacy.run cfg q tb v0 call hist).2 = tb := by
+    (hleak : ¬ LeakyParse cfg) (hexit : (Legacy.run fl cfg q tb v0 call hist).1.leavesRunning = false) :
+    (Legacy.run fl cfg q tb v0 call hist).2 = tb := by
   revert hexit
   unfold Legacy.run
   by_cases hany : (hasListen cfg || hasTime cfg) = true
@@ -753,8 +789,8 @@ theorem New.stopAll_applied (q : Nat) (s : New.Started) (tb : Tables) (h : q ∉
 
 /-- `start` either ends the call with the original tables, or leaves exactly what its flags say -/
 theorem New.start_cases (cfg : Cfg) (q : Nat) (tb : Tables) (v0 call : Nat) (hf : q ∉ tb.stSubs) :
-    (∃ e, New.start cfg q tb v0 call = .error (e, tb)) ∨
-    (∃ s, New.start cfg q tb v0 call = .ok (s, New.applied q s tb)) := by
+    (∃ e, New.start fl cfg q tb v0 call = .error (e, tb)) ∨
+    (∃ s, New.start fl cfg q tb v0 call = .ok (s, New.applied q s tb)) := by
   unfold New.start New.timeoutStart
   have e0 : tb = New.applied q {} tb := by
     obtain ⟨a, b, c, d, e, f⟩ := tb; simp [New.applied]
@@ -823,7 +859,7 @@ theorem New.start_cases (cfg : Cfg) (q : Nat) (tb : Tables) (v0 call : Nat) (hf 
             exact tail { to := b, st := true } rfl rfl rfl
       · simp only [hc, Bool.false_eq_true, if_false, New.Stage.andThen]
         exact tail { to := b, st := true } rfl rfl rfl
-  by_cases hto : (New.effTimeout cfg).isSome = true
+  by_cases hto : (New.effTimeout fl cfg).isSome = true
   · simp only [hto, if_true, New.Stage.andThen]
     have happ : ({ tb with tasks := tb.tasks + 1 } : Tables) = New.applied q { to := true } tb := by
       simp [New.applied]
@@ -835,18 +871,18 @@ theorem New.start_cases (cfg : Cfg) (q : Nat) (tb : Tables) (v0 call : Nat) (hf 
     exact this
 
 theorem new_cleanup (cfg : Cfg) (q : Nat) (tb : Tables) (v0 call : Nat) (hist : Hist) (hf : q ∉ tb.stSubs)
-    (hexit : (New.run cfg q tb v0 call hist).1.leavesRunning = false) :
-    (New.run cfg q tb v0 call hist).2 = tb := by
+    (hexit : New.keeps fl (New.run fl cfg q tb v0 call hist).1 = false) :
+    (New.run fl cfg q tb v0 call hist).2 = tb := by
   unfold New.run at hexit ⊢
   by_cases hk : New.noKwargs cfg = true
   · simp [hk]
   · simp only [hk, Bool.false_eq_true, if_false] at hexit ⊢
     by_cases hpa : New.parseAll cfg = true
     · simp only [hpa, Bool.not_true, Bool.false_eq_true, if_false] at hexit ⊢
-      by_cases hnd : New.noDecorators cfg = true
+      by_cases hnd : New.noDecorators fl cfg = true
       · simp [hnd]
       · simp only [hnd, Bool.false_eq_true, if_false] at hexit ⊢
-        rcases New.start_cases cfg q tb v0 call hf with ⟨e, he⟩ | ⟨s, hs⟩
+        rcases New.start_cases fl cfg q tb v0 call hf with ⟨e, he⟩ | ⟨s, hs⟩
         · simp [he, New.finish]
         · simp only [hs, New.finish] at hexit ⊢
           simp only [hexit, Bool.false_eq_true, if_false]
@@ -865,9 +901,9 @@ def exitTime : Exit → Nat
 theorem exitTime_retOf (d : Nat) (k : DKind) : exitTime (retOf d k) = d := by cases k <;> rfl
 
 theorem legacy_loop_after (cfg : Cfg) (call : Nat) (hist later : Hist) (anchor : Nat)
-    (hne : Legacy.loop cfg call hist anchor ≠ .waiting)
-    (hl : ∀ p ∈ later, exitTime (Legacy.loop cfg call hist anchor) < p.1) :
-    Legacy.loop cfg call (hist ++ later) anchor = Legacy.loop cfg call hist anchor := by
+    (hne : Legacy.loop fl cfg call hist anchor ≠ .waiting)
+    (hl : ∀ p ∈ later, exitTime (Legacy.loop fl cfg call hist anchor) < p.1) :
+    Legacy.loop fl cfg call (hist ++ later) anchor = Legacy.loop fl cfg call hist anchor := by
   induction hist generalizing anchor with
   | nil =>
     cases later with
@@ -875,11 +911,11 @@ theorem legacy_loop_after (cfg : Cfg) (call : Nat) (hist later : Hist) (anchor :
     | cons p r =>
       obtain ⟨t, it⟩ := p
       simp only [List.nil_append, Legacy.loop] at hne hl ⊢
-      cases hp : Legacy.pre cfg call anchor with
+      cases hp : Legacy.pre fl cfg call anchor with
       | some e => rfl
       | none =>
         simp only [hp] at hne hl ⊢
-        cases hd : Legacy.dl cfg call anchor with
+        cases hd : Legacy.dl fl cfg call anchor with
         | none => simp [hd] at hne
         | some dk =>
           obtain ⟨d, k⟩ := dk
@@ -891,21 +927,21 @@ theorem legacy_loop_after (cfg : Cfg) (call : Nat) (hist later : Hist) (anchor :
   | cons p rest ih =>
     obtain ⟨t, it⟩ := p
     simp only [List.cons_append, Legacy.loop] at hne hl ⊢
-    cases hp : Legacy.pre cfg call anchor with
+    cases hp : Legacy.pre fl cfg call anchor with
     | some e => rfl
     | none =>
       simp only [hp] at hne hl ⊢
-      have item : ∀ (_ : onItem cfg t it (Legacy.loop cfg call rest t) (Legacy.loop cfg call rest anchor) ≠ .waiting)
-          (_ : ∀ p ∈ later, exitTime (onItem cfg t it (Legacy.loop cfg call rest t) (Legacy.loop cfg call rest anchor)) < p.1),
-          onItem cfg t it (Legacy.loop cfg call (rest ++ later) t) (Legacy.loop cfg call (rest ++ later) anchor)
-            = onItem cfg t it (Legacy.loop cfg call rest t) (Legacy.loop cfg call rest anchor) := by
+      have item : ∀ (_ : onItem cfg t it (Legacy.loop fl cfg call rest t) (Legacy.loop fl cfg call rest anchor) ≠ .waiting)
+          (_ : ∀ p ∈ later, exitTime (onItem cfg t it (Legacy.loop fl cfg call rest t) (Legacy.loop fl cfg call rest anchor)) < p.1),
+          onItem cfg t it (Legacy.loop fl cfg call (rest ++ later) t) (Legacy.loop fl cfg call (rest ++ later) anchor)
+            = onItem cfg t it (Legacy.loop fl cfg call rest t) (Legacy.loop fl cfg call rest anchor) := by
         intro h1 h2
         unfold onItem at h1 h2 ⊢
         cases hr : react cfg t it with
         | stop e => rfl
         | wake => simp only [hr] at h1 h2 ⊢; exact ih t h1 h2
         | skip => simp only [hr] at h1 h2 ⊢; exact ih anchor h1 h2
-      cases hd : Legacy.dl cfg call anchor with
+      cases hd : Legacy.dl fl cfg call anchor with
       | none =>
         simp only [hd] at hne hl ⊢
         exact item hne hl
@@ -918,9 +954,9 @@ theorem legacy_loop_after (cfg : Cfg) (call : Nat) (hist later : Hist) (anchor :
           exact item hne hl
 
 theorem new_loop_after (cfg : Cfg) (call : Nat) (hist later : Hist)
-    (hne : New.loop cfg call hist ≠ .waiting)
-    (hl : ∀ p ∈ later, exitTime (New.loop cfg call hist) < p.1) :
-    New.loop cfg call (hist ++ later) = New.loop cfg call hist := by
+    (hne : New.loop fl cfg call hist ≠ .waiting)
+    (hl : ∀ p ∈ later, exitTime (New.loop fl cfg call hist) < p.1) :
+    New.loop fl cfg call (hist ++ later) = New.loop fl cfg call hist := by
   induction hist with
   | nil =>
     cases later with
@@ -928,7 +964,7 @@ theorem new_loop_after (cfg : Cfg) (call : Nat) (hist later : Hist)
     | cons p r =>
       obtain ⟨t, it⟩ := p
       simp only [List.nil_append, New.loop] at hne hl ⊢
-      cases hd : New.dl cfg call with
+      cases hd : New.dl fl cfg call with
       | none => simp [hd] at hne
       | some dk =>
         obtain ⟨d, k⟩ := dk
@@ -940,17 +976,17 @@ theorem new_loop_after (cfg : Cfg) (call : Nat) (hist later : Hist)
   | cons p rest ih =>
     obtain ⟨t, it⟩ := p
     simp only [List.cons_append, New.loop] at hne hl ⊢
-    have item : ∀ (_ : onItem cfg t it (New.loop cfg call rest) (New.loop cfg call rest) ≠ .waiting)
-        (_ : ∀ p ∈ later, exitTime (onItem cfg t it (New.loop cfg call rest) (New.loop cfg call rest)) < p.1),
-        onItem cfg t it (New.loop cfg call (rest ++ later)) (New.loop cfg call (rest ++ later))
-          = onItem cfg t it (New.loop cfg call rest) (New.loop cfg call rest) := by
+    have item : ∀ (_ : onItem cfg t it (New.loop fl cfg call rest) (New.loop fl cfg call rest) ≠ .waiting)
+        (_ : ∀ p ∈ later, exitTime (onItem cfg t it (New.loop fl cfg call rest) (New.loop fl cfg call rest)) < p.1),
+        onItem cfg t it (New.loop fl cfg call (rest ++ later)) (New.loop fl cfg call (rest ++ later))
+          = onItem cfg t it (New.loop fl cfg call rest) (New.loop fl cfg call rest) := by
       intro h1 h2
       unfold onItem at h1 h2 ⊢
       cases hr : react cfg t it with
       | stop e => rfl
       | wake => simp only [hr] at h1 h2 ⊢; exact ih h1 h2
       | skip => simp only [hr] at h1 h2 ⊢; exact ih h1 h2
-    cases hd : New.dl cfg call with
+    cases hd : New.dl fl cfg call with
     | none =>
       simp only [hd] at hne hl ⊢
       exact item hne hl
@@ -986,9 +1022,9 @@ theorem sleep_after (call T : Nat) (hist later : Hist)
       | event d => exact ih hl
 
 theorem legacy_run_after (cfg : Cfg) (q : Nat) (tb : Tables) (v0 call : Nat) (hist later : Hist)
-    (hne : (Legacy.run cfg q tb v0 call hist).1 ≠ .waiting)
-    (hl : ∀ p ∈ later, exitTime (Legacy.run cfg q tb v0 call hist).1 < p.1) :
-    Legacy.run cfg q tb v0 call (hist ++ later) = Legacy.run cfg q tb v0 call hist := by
+    (hne : (Legacy.run fl cfg q tb v0 call hist).1 ≠ .waiting)
+    (hl : ∀ p ∈ later, exitTime (Legacy.run fl cfg q tb v0 call hist).1 < p.1) :
+    Legacy.run fl cfg q tb v0 call (hist ++ later) = Legacy.run fl cfg q tb v0 call hist := by
   unfold Legacy.run at hne hl ⊢
   by_cases hany : (hasListen cfg || hasTime cfg) = true
   · simp only [hany, Bool.not_true, Bool.false_eq_true, if_false] at hne hl ⊢
@@ -996,7 +1032,7 @@ theorem legacy_run_after (cfg : Cfg) (q : Nat) (tb : Tables) (v0 call : Nat) (hi
     | error r => rfl
     | ok tb1 =>
       simp only [hs] at hne hl ⊢
-      rw [legacy_loop_after cfg call hist later call hne hl]
+      rw [legacy_loop_after fl cfg call hist later call hne hl]
   · simp only [Bool.not_eq_true] at hany
     simp only [hany, Bool.not_false, if_true] at hne hl ⊢
     cases ht : cfg.timeout with
@@ -1006,9 +1042,9 @@ theorem legacy_run_after (cfg : Cfg) (q : Nat) (tb : Tables) (v0 call : Nat) (hi
       rw [sleep_after call T hist later hl]
 
 theorem new_run_after (cfg : Cfg) (q : Nat) (tb : Tables) (v0 call : Nat) (hist later : Hist)
-    (hne : (New.run cfg q tb v0 call hist).1 ≠ .waiting)
-    (hl : ∀ p ∈ later, exitTime (New.run cfg q tb v0 call hist).1 < p.1) :
-    New.run cfg q tb v0 call (hist ++ later) = New.run cfg q tb v0 call hist := by
+    (hne : (New.run fl cfg q tb v0 call hist).1 ≠ .waiting)
+    (hl : ∀ p ∈ later, exitTime (New.run fl cfg q tb v0 call hist).1 < p.1) :
+    New.run fl cfg q tb v0 call (hist ++ later) = New.run fl cfg q tb v0 call hist := by
   unfold New.run at hne hl ⊢
   by_cases hk : New.noKwargs cfg = true
   · simp [hk]
@@ -1016,14 +1052,14 @@ theorem new_run_after (cfg : Cfg) (q : Nat) (tb : Tables) (v0 call : Nat) (hist 
     by_cases hpa : (!New.parseAll cfg) = true
     · simp [hpa]
     · simp only [hpa, Bool.false_eq_true, if_false] at hne hl ⊢
-      by_cases hnd : New.noDecorators cfg = true
+      by_cases hnd : New.noDecorators fl cfg = true
       · simp [hnd]
       · simp only [hnd, Bool.false_eq_true, if_false] at hne hl ⊢
-        cases hs : New.start cfg q tb v0 call with
+        cases hs : New.start fl cfg q tb v0 call with
         | error r => rfl
         | ok p =>
           simp only [hs, New.finish] at hne hl ⊢
-          rw [new_loop_after cfg call hist later hne hl]
+          rw [new_loop_after fl cfg call hist later hne hl]
 
 /-! ## cancellation keeps every subscription (the general form of findings F1 / F2) -/
 
@@ -1097,8 +1133,8 @@ theorem Legacy.setup_ok (cfg : Cfg) (q : Nat) (tb : Tables) (v0 call : Nat) (t :
       rw [e3, e2, e1]
 
 theorem legacy_cancel_keeps (cfg : Cfg) (q : Nat) (tb : Tables) (v0 call : Nat) (hist : Hist) (t : Nat)
-    (hc : (Legacy.run cfg q tb v0 call hist).1 = .cancelled t) :
-    (Legacy.run cfg q tb v0 call hist).2 = Legacy.subscribed cfg q tb := by
+    (hc : (Legacy.run fl cfg q tb v0 call hist).1 = .cancelled t) :
+    (Legacy.run fl cfg q tb v0 call hist).2 = Legacy.subscribed cfg q tb := by
   unfold Legacy.run at hc ⊢
   by_cases hany : (hasListen cfg || hasTime cfg) = true
   · simp only [hany, Bool.not_true, Bool.false_eq_true, if_false] at hc ⊢
@@ -1196,19 +1232,19 @@ theorem legacy_subscribed_ne (cfg : Cfg) (q : Nat) (tb : Tables) (hf : Fresh q t
     simp [hs, he, hm, Tables.stAdd, Tables.evAdd, Tables.mqAdd, h2, h3] at heq hl
 
 theorem new_cancel_keeps (cfg : Cfg) (q : Nat) (tb : Tables) (v0 call : Nat) (hist : Hist) (t : Nat)
-    (hf : q ∉ tb.stSubs) (hc : (New.run cfg q tb v0 call hist).1 = .cancelled t) :
-    ∃ s, (New.run cfg q tb v0 call hist).2 = New.applied q s tb ∧
-      New.start cfg q tb v0 call = .ok (s, New.applied q s tb) := by
+    (hflag : fl.cancelNoStop = true) (hf : q ∉ tb.stSubs) (hc : (New.run fl cfg q tb v0 call hist).1 = .cancelled t) :
+    ∃ s, (New.run fl cfg q tb v0 call hist).2 = New.applied q s tb ∧
+      New.start fl cfg q tb v0 call = .ok (s, New.applied q s tb) := by
   unfold New.run at hc ⊢
   by_cases hk : New.noKwargs cfg = true
   · simp [hk] at hc
   · simp only [hk, Bool.false_eq_true, if_false] at hc ⊢
     by_cases hpa : New.parseAll cfg = true
     · simp only [hpa, Bool.not_true, Bool.false_eq_true, if_false] at hc ⊢
-      by_cases hnd : New.noDecorators cfg = true
+      by_cases hnd : New.noDecorators fl cfg = true
       · simp [hnd] at hc
       · simp only [hnd, Bool.false_eq_true, if_false] at hc ⊢
-        rcases New.start_cases cfg q tb v0 call hf with ⟨e, he⟩ | ⟨s, hs⟩
+        rcases New.start_cases fl cfg q tb v0 call hf with ⟨e, he⟩ | ⟨s, hs⟩
         · -- start never ends by a cancellation
           exfalso
           rw [he] at hc
@@ -1245,7 +1281,7 @@ theorem new_cancel_keeps (cfg : Cfg) (q : Nat) (tb : Tables) (v0 call : Nat) (hi
                   | true => simp [New.Stage.andThen]
                   | false => simp only [New.Stage.andThen]; exact hne _ _ _
               · simp only [hcn, Bool.false_eq_true, if_false, New.Stage.andThen]; exact hne _ _ _
-          by_cases hto : (New.effTimeout cfg).isSome = true
+          by_cases hto : (New.effTimeout fl cfg).isSome = true
           · simp only [hto, if_true, New.Stage.andThen] at he
             exact hmid _ _ _ he
           · simp only [hto, Bool.false_eq_true, if_false, New.Stage.andThen] at he
@@ -1253,7 +1289,7 @@ theorem new_cancel_keeps (cfg : Cfg) (q : Nat) (tb : Tables) (v0 call : Nat) (hi
         · refine ⟨s, ?_, hs⟩
           rw [hs] at hc ⊢
           simp only [New.finish] at hc ⊢
-          simp [hc, Exit.leavesRunning]
+          simp [hc, New.keeps, hflag]
     · simp only [Bool.not_eq_true] at hpa
       simp [hpa] at hc
 
